@@ -138,19 +138,14 @@ theorem C02_other_key_needs_valid_sig {C : Crypto} {certsOk : Bytes → Bool} {p
     verify_chain h
   exact ⟨ws, w, a, hsig, hw, ha, s, hmem, hi'.trans hi, hser.trans hs, att, body, hat, hraw, hrsa⟩
 
-/-- Whatever the implementation accepts, the independent specification `Spec.authenticodeVerify`
-    accepts, on a well-formed image whose certificate table walks strictly.
-
-    PARTIAL: besides the requested `hsha` (a digest is never the empty string, needed by
-    `C04_refines_spec_partial`) the hypothesis `hct` is added: every table entry has
-    wCertificateType = WIN_CERT_TYPE_PKCS_SIGNED_DATA (2).  `Verify` never looks at
-    wCertificateType (`ReadWinCertificate` checks the revision only), the specification requires
-    it; without `hct` the statement is false — counterexample `PeSignEx.imgEf` below. -/
-theorem C02_refines_spec_partial {C : Crypto} {certsOk : Bytes → Bool} {b : Bytes} (wb : WF b)
+/-- What the implementation accepts, the from-the-documents specification accepts: for a
+    well-formed image whose certificate table walks strictly, and a digest function that never returns
+    the empty string (true of SHA-256), `Verify = ok true` implies `Spec.authenticodeVerify`. -/
+theorem C02_refines_spec {C : Crypto} {certsOk : Bytes → Bool} {b : Bytes} (wb : WF b)
     {p : Parsed} (hp : parse b (factsOf b) = .ok p) {c : Cert} {es : List CertEntry}
-    (he : certEntries b = some es) (hct : ∀ e ∈ es, e.ctype = 2) (hsha : ∀ x, C.sha256 x ≠ [])
+    (he : certEntries b = some es) (hsha : ∀ x, C.sha256 x ≠ [])
     (h : p.verify C certsOk c = .ok true) : Spec.authenticodeVerify C b c = true :=
-  authenticodeVerify_of_verify wb hp he hct hsha h
+  authenticodeVerify_of_verify wb hp he hsha h
 
 /-! ### non-vacuity: a really signed image under toy cryptography (`PeSignEx` in Lemmas/PeSign.lean:
     the digest sees the last 32 bytes of the message; a signature is valid iff it is the key's
@@ -195,17 +190,17 @@ example : (parsed imgSigned').verify toy32 allOk cert ≠ .ok true :=
 /-- … and evaluated: the digest comparison fails, an error -/
 example : (parsed imgSigned').verify toy32 allOk cert = .err := by decide +kernel
 
-/-- `C02_refines_spec_partial` applies to `imgSigned` … -/
+/-- `C02_refines_spec` applies to `imgSigned` … -/
 example : Spec.authenticodeVerify toy32 imgSigned cert = true :=
-  C02_refines_spec_partial (es := [⟨8 + blob.length, 0x0200, 2, blob⟩]) wf_imgSigned
-    parse_imgSigned (by decide +kernel) (by decide) (by intro x; simp [toy32, zeros])
+  C02_refines_spec (es := [⟨8 + blob.length, 0x0200, 2, blob⟩]) wf_imgSigned
+    parse_imgSigned (by decide +kernel) (by intro x; simp [toy32, zeros])
     verify_imgSigned
-/-- … and `hct` cannot be dropped: `imgEf` carries the same signature in a table entry of
-    wCertificateType 0x0EF1; the implementation accepts, the specification refuses -/
+/-- … and to `imgEf`, which carries the same signature in a table entry of wCertificateType 0x0EF1:
+    neither the implementation nor the specification looks at that field -/
 example : WF imgEf ∧ parse imgEf (factsOf imgEf) = .ok (parsed imgEf) ∧
     certEntries imgEf = some [⟨8 + blob.length, 0x0200, 0x0EF1, blob⟩] ∧
     (parsed imgEf).verify toy32 allOk cert = .ok true ∧
-    Spec.authenticodeVerify toy32 imgEf cert = false :=
+    Spec.authenticodeVerify toy32 imgEf cert = true :=
   ⟨wf_imgEf, parse_imgEf, by decide +kernel, by decide +kernel, by decide +kernel⟩
 
 end NonVacuity
@@ -218,6 +213,6 @@ end NonVacuity
 #print axioms C02_no_covered_byte_change_upto_collision
 #print axioms C02_no_transplant_upto_collision
 #print axioms C02_other_key_needs_valid_sig
-#print axioms C02_refines_spec_partial
+#print axioms C02_refines_spec
 
 end GoUefi.C02
